@@ -1,6 +1,7 @@
 //! Exercises the logos runtime library directly (no model here; the model runs in Lean):
 //!   READ <hexsrc> <off> <size>            Source::read::<&[u8; size]> (size 0 = u8) on str and [u8]
 //!   BUMP <s|b> <hexsrc> <nexts> <n>       n decimal; run `nexts` calls of next(), then bump(n) under catch_unwind
+//!                                         (kinds sS sB sR sC bV bB bA: hand-written lexers whose Source is String, Box<str>, Rc<str>, Cow<str>, Vec<u8>, Box<[u8]>, Arc<[u8]>)
 //!   CBUMP <s|b> <hexsrc> <nexts> <n>      `nexts` calls of next() whose callbacks bump(0), then one call of next() under catch_unwind
 //!                                         whose callback calls bump(n); the definitions have a skip, so the call may pass trivia first
 //!   SRC  <hexsrc>                         every Source method on Deref wrappers (String, Box<str>, &str, Vec<u8>, Box<[u8]>, &[u8])
@@ -236,6 +237,88 @@ fn do_bump_str(src: &str, nexts: usize, n: usize) -> String {
     }
     out
 }
+
+// ---- bump on lexers whose Source is a Deref wrapper (String, Box<str>, &str, Rc<str>, Vec<u8>, Box<[u8]>, &[u8]) -------------
+// The derive only ever picks `str` or `[u8]`; a hand-written `impl Logos` may name any `Source`.  The token type steps over one
+// character (text) or one byte per call of `next()`.
+trait Chunk {
+    fn first_len(&self) -> usize;
+    fn as_bytes_(&self) -> &[u8];
+}
+impl Chunk for &str {
+    fn first_len(&self) -> usize {
+        self.chars().next().map_or(0, |c| c.len_utf8())
+    }
+    fn as_bytes_(&self) -> &[u8] {
+        self.as_bytes()
+    }
+}
+impl Chunk for &[u8] {
+    fn first_len(&self) -> usize {
+        usize::from(!self.is_empty())
+    }
+    fn as_bytes_(&self) -> &[u8] {
+        self
+    }
+}
+
+macro_rules! wrapper_lexer {
+    ($tok:ident, $fname:ident, $src:ty, $text:expr, $mk:expr) => {
+        #[derive(Debug, PartialEq, Clone)]
+        pub struct $tok;
+        impl<'s> Logos<'s> for $tok {
+            type Extras = ();
+            type Source = $src;
+            type Error = ();
+            fn lex(lex: &mut Lexer<'s, Self>) -> Option<Result<Self, ()>> {
+                let n = lex.remainder().first_len();
+                if n == 0 {
+                    return None;
+                }
+                lex.bump(n);
+                Some(Ok($tok))
+            }
+        }
+        fn $fname(raw: &[u8], nexts: usize, n: usize) -> String {
+            #[allow(clippy::redundant_closure_call)]
+            let owned: $src = match ($mk)(raw) {
+                Some(x) => x,
+                None => return "NOTUTF8".into(),
+            };
+            let mut lex = Lexer::<$tok>::new(&owned);
+            for _ in 0..nexts {
+                lex.next();
+            }
+            let pre = lex.span();
+            let r = catch_unwind(AssertUnwindSafe(|| lex.bump(n)));
+            let sp = lex.span();
+            let on_boundary = |i: usize| !$text || i == 0 || i >= raw.len() || (raw[i] & 0xC0) != 0x80;
+            let valid = sp.start <= sp.end && sp.end <= raw.len() && on_boundary(sp.start) && on_boundary(sp.end);
+            let mut out = format!("pre:{}-{} {} {} {}", pre.start, pre.end, if r.is_ok() { "ok" } else { "panic" }, sp.start, sp.end);
+            if valid {
+                let sl = catch_unwind(AssertUnwindSafe(|| (lex.slice().as_bytes_().to_vec(), lex.remainder().as_bytes_().to_vec())));
+                match sl {
+                    Ok((a, b)) => out.push_str(&format!(" {} {}", hex(&a), hex(&b))),
+                    Err(_) => out.push_str(" SLICEPANIC"),
+                }
+            } else {
+                out.push_str(" INVALIDSPAN");
+            }
+            out
+        }
+    };
+}
+
+fn text_of(raw: &[u8]) -> Option<&str> {
+    std::str::from_utf8(raw).ok()
+}
+wrapper_lexer!(WString, do_bump_string, String, true, |r: &[u8]| text_of(r).map(String::from));
+wrapper_lexer!(WBoxStr, do_bump_boxstr, Box<str>, true, |r: &[u8]| text_of(r).map(Box::<str>::from));
+wrapper_lexer!(WRcStr, do_bump_rcstr, std::rc::Rc<str>, true, |r: &[u8]| text_of(r).map(std::rc::Rc::<str>::from));
+wrapper_lexer!(WCow, do_bump_cow, std::borrow::Cow<'static, str>, true, |r: &[u8]| text_of(r).map(|t| std::borrow::Cow::Owned(t.to_string())));
+wrapper_lexer!(WVec, do_bump_vec, Vec<u8>, false, |r: &[u8]| Some(r.to_vec()));
+wrapper_lexer!(WBoxBytes, do_bump_boxbytes, Box<[u8]>, false, |r: &[u8]| Some(Box::<[u8]>::from(r)));
+wrapper_lexer!(WArc, do_bump_arcbytes, std::sync::Arc<[u8]>, false, |r: &[u8]| Some(std::sync::Arc::<[u8]>::from(r)));
 
 fn do_bump_bytes(src: &[u8], nexts: usize, n: usize) -> String {
     let mut lex = TokC::lexer(src);
@@ -477,13 +560,19 @@ fn main() {
                 let src = unhex(t[2]);
                 let nexts: usize = t[3].parse().unwrap();
                 let n: usize = t[4].parse().unwrap();
-                if t[1] == "s" {
-                    match std::str::from_utf8(&src) {
+                match t[1] {
+                    "s" => match std::str::from_utf8(&src) {
                         Ok(s) => do_bump_str(s, nexts, n),
                         Err(_) => "NOTUTF8".into(),
-                    }
-                } else {
-                    do_bump_bytes(&src, nexts, n)
+                    },
+                    "sS" => do_bump_string(&src, nexts, n),
+                    "sB" => do_bump_boxstr(&src, nexts, n),
+                    "sR" => do_bump_rcstr(&src, nexts, n),
+                    "sC" => do_bump_cow(&src, nexts, n),
+                    "bV" => do_bump_vec(&src, nexts, n),
+                    "bB" => do_bump_boxbytes(&src, nexts, n),
+                    "bA" => do_bump_arcbytes(&src, nexts, n),
+                    _ => do_bump_bytes(&src, nexts, n),
                 }
             }
             "CBUMP" => {
